@@ -301,6 +301,9 @@ mut("c16_pivot_per_unit", ["C16"], S,
                     if unit_i == 7:
                         pivot = pivot / 2
                     if unit.segment.start + pivot > bound_sup:"""), note="8th unit onwards shifted by another pivot")
+mut("c16_revert_int_pivot_fix", ["C16"], S,
+    ("""            if pivot < segment.start and pivot + 1 <= segment.end:""", """            if False and pivot < segment.start and pivot + 1 <= segment.end:"""),
+    note="integer truncation may leave the available segment again (the repaired known finding)")
 # ---------------- C19 ----------------
 mut("c19_no_security_unit", ["C19"], T,
     ("""            if len(continuum._annotations[annotator]) == 0:
